@@ -195,7 +195,7 @@ RuleBuilder& RuleBuilder::weaken(Body_t to, bool w) {
 			if (min > bIt->weight) { min = bIt->weight; }
 			bIt->weight = 1;
 		}
-		setBound((bnd+(min-1))/min);
+		setBound(static_cast<Weight_t>((static_cast<int64_t>(bnd)+(static_cast<int64_t>(min)-1))/min));
 	}
 	r->body.type = to;
 	return *this;
